@@ -348,7 +348,7 @@ func (m *Machine) loadSymIdx(l *Loc, idx *sym.Term) Value {
 	if l.FA != nil {
 		return l.FA.Read(m, idx)
 	}
-	n := len(l.Elems)
+	n := l.arrayLen()
 	if n == 0 {
 		m.unsupported("symbolic index into empty array")
 	}
@@ -357,9 +357,15 @@ func (m *Machine) loadSymIdx(l *Loc, idx *sym.Term) Value {
 	if n > 64 {
 		lo, hi = m.idxRange(idx, n)
 	}
-	var acc Value = l.Elems[hi]
+	get := func(i int) Value {
+		if l.Kids != nil {
+			return m.loadLoc(l.Kids[i])
+		}
+		return l.Elems[i]
+	}
+	var acc Value = get(hi)
 	for i := hi - 1; i >= lo; i-- {
-		acc = m.iteValue(m.ctx.Eq(idx, m.i64(int64(i))), l.Elems[i], acc)
+		acc = m.iteValue(m.ctx.Eq(idx, m.i64(int64(i))), get(i), acc)
 	}
 	return acc
 }
@@ -369,12 +375,16 @@ func (m *Machine) storeSymIdx(l *Loc, idx *sym.Term, v Value) {
 		l.FA.Write(m, idx, v.(*sym.Term))
 		return
 	}
-	n := len(l.Elems)
+	n := l.arrayLen()
 	lo, hi := 0, n-1
 	if n > 64 {
 		lo, hi = m.idxRange(idx, n)
 	}
 	for i := lo; i <= hi; i++ {
+		if l.Kids != nil {
+			m.storeLoc(l.Kids[i], m.iteValue(m.ctx.Eq(idx, m.i64(int64(i))), v, m.loadLoc(l.Kids[i])))
+			continue
+		}
 		l.Elems[i] = m.iteValue(m.ctx.Eq(idx, m.i64(int64(i))), v, l.Elems[i])
 	}
 }
